@@ -1,5 +1,9 @@
 (* Property C09 — all observations of a frame agree and Equals means cell-wise equality. *)
-From QF Require Import Base.Prelude Model.Frame Model.Filter Model.Ops Proofs.EqualsProofs.
+From QF Require Import Base.Prelude.
+From QF Require Import Model.Utf8 Model.CsvSpec Model.CsvWrite Model.Json Model.Observe Proofs.JsonProofs.
+(* Model.Frame last: [frame], [frame_len] mean the physical frame of Model/Frame.v *)
+From QF Require Import Model.Frame Model.Filter Model.Ops Model.TableSpec Proofs.EqualsProofs.
+From QF Require Import Proofs.ObserveProofs.
 Local Open Scope nat_scope.
 
 (* Column.Equals reads the two columns through their OWN row indexes and answers exactly "same column type and
@@ -42,3 +46,340 @@ Example C09_equal_example :
   let h := mkFrame [([65%N], FCol [0x3FF0000000000000; 0x7FF8000000000002; 0x8000000000000000]%N); ([66%N], SCol [Some [97%N]; Some []; Some []])] [0; 1; 2] false in
   equals f g = Ok true /\ equals g f = Ok true /\ equals f h = Ok false.
 Proof. vm_compute. auto. Qed.
+
+(* ================================================================== wave 2: Equals at frame level *)
+
+(* the two example frames used below: different physical layout and row index, same logical rows up to the
+   cell relation (NaN payloads, sign of zero, enum value tables differ) *)
+Definition ex_f : frame :=
+  mkFrame [([65%N], FCol [0x7FF8000000000001; 0; 0x3FF0000000000000]%N); ([66%N], SCol [None; Some []; Some [97%N]]);
+           ([67%N], ECol [1; 255; 0]%N [[120%N]; [121%N]] true)] [2; 0; 1] false.
+Definition ex_g : frame :=
+  mkFrame [([65%N], FCol [0x3FF0000000000000; 0x7FF8000000000002; 0x8000000000000000]%N); ([66%N], SCol [Some [97%N]; None; Some []]);
+           ([67%N], ECol [2; 0; 255]%N [[121%N]; [122%N]; [120%N]] false)] [0; 1; 2] false.
+Example C09_ex_wf : wf_frame ex_f = true /\ wf_frame ex_g = true /\ equals ex_f ex_g = Ok true.
+Proof. vm_compute. auto. Qed.
+
+(* every well-formed frame (equal physical column lengths, index in range, enum ranks valid) has a table *)
+Theorem C09_wf_readable f : wf_frame f = true -> exists t, abs f = Ok t.
+Proof. exact (wf_abs f). Qed.
+Print Assumptions C09_wf_readable.
+
+(* Equals computes exactly the table equality [tequal] (Model/TableSpec.v, the oracle the frameops engine
+   runs) of the two logical tables: no fault, whatever the two physical layouts and row indexes are *)
+Theorem C09_equals_table f g tf tg : abs f = Ok tf -> abs g = Ok tg -> equals f g = Ok (tequal tf tg).
+Proof. exact (equals_spec f g tf tg). Qed.
+Print Assumptions C09_equals_table.
+
+(* Equals(a, b) is true EXACTLY when a and b have the same column names in the same order, the same column
+   types and pairwise equal cells (cell_eq: null = null, NaN = NaN, -0 = +0, enum cells by their string value:
+   the enum value tables and strictness are not compared) *)
+Theorem C09_equals_iff f g tf tg :
+  abs f = Ok tf -> abs g = Ok tg ->
+  (equals f g = Ok true <->
+   tnames tf = tnames tg /\ ttypes tf = ttypes tg /\ Forall2 (Forall2 cell_eq) (trows tf) (trows tg)).
+Proof. exact (equals_iff f g tf tg). Qed.
+Print Assumptions C09_equals_iff.
+
+Theorem C09_equals_iff_wf f g :
+  wf_frame f = true -> wf_frame g = true ->
+  exists tf tg, abs f = Ok tf /\ abs g = Ok tg /\
+    (equals f g = Ok true <->
+     tnames tf = tnames tg /\ ttypes tf = ttypes tg /\ Forall2 (Forall2 cell_eq) (trows tf) (trows tg)).
+Proof. exact (equals_iff_wf f g). Qed.
+Print Assumptions C09_equals_iff_wf.
+
+(* hence, on well-formed frames, Equals never faults and is reflexive, symmetric and transitive *)
+Theorem C09_equals_total f g : wf_frame f = true -> wf_frame g = true -> exists b, equals f g = Ok b.
+Proof. exact (equals_total_wf f g). Qed.
+Print Assumptions C09_equals_total.
+Theorem C09_equals_refl_wf f : wf_frame f = true -> equals f f = Ok true.
+Proof. exact (equals_refl_wf f). Qed.
+Print Assumptions C09_equals_refl_wf.
+Theorem C09_equals_sym f g : wf_frame f = true -> wf_frame g = true -> equals f g = equals g f.
+Proof. exact (equals_sym_wf f g). Qed.
+Print Assumptions C09_equals_sym.
+Theorem C09_equals_trans f g h :
+  wf_frame f = true -> wf_frame g = true -> wf_frame h = true ->
+  equals f g = Ok true -> equals g h = Ok true -> equals f h = Ok true.
+Proof. exact (equals_trans_wf f g h). Qed.
+Print Assumptions C09_equals_trans.
+
+(* ================================================================== wave 2: the observers agree
+   Every observer is characterised as a function of the logical table [abs f] (rows in index order); the
+   observers are the executable definitions of Model/Observe.v on top of Model/CsvWrite.v and Model/Json.v. *)
+
+Example C09_ex_premises :
+  exists t, abs ex_f = Ok t /\ NoDup (col_names ex_f) /\ ferr ex_f = false
+            /\ tcolumn t [67%N] = Some (TEnum, [CEnum (Some [120%N]); CEnum (Some [121%N]); CEnum None]).
+Proof.
+  eexists. split; [vm_compute; reflexivity|]. split; [|split; reflexivity].
+  repeat constructor; simpl; intuition discriminate.
+Qed.
+
+(* Len() = number of rows of the table (for a frame without Err; with Err it is -1 by definition) *)
+Theorem C09_len f t : ferr f = false -> abs f = Ok t -> frame_len f = Z.of_nat (length (trows t)).
+Proof. exact (len_spec f t). Qed.
+Print Assumptions C09_len.
+
+(* typed views: XView(name).Slice() is exactly the column the name denotes in the table (tcolumn: the LAST
+   column with that name), in row order *)
+Theorem C09_view_slice f t name ty cells :
+  abs f = Ok t -> tcolumn t name = Some (ty, cells) -> frame_view_slice f ty name = Ok cells.
+Proof. exact (view_slice_spec f t name ty cells). Qed.
+Print Assumptions C09_view_slice.
+
+(* XView(name).Len() = number of rows = length of the column *)
+Theorem C09_view_len f t name ty cells :
+  abs f = Ok t -> tcolumn t name = Some (ty, cells) ->
+  frame_view_len f ty name = Ok (Z.of_nat (length (trows t))) /\ length cells = length (trows t).
+Proof. exact (view_len_spec f t name ty cells). Qed.
+Print Assumptions C09_view_len.
+
+(* XView(name).ItemAt(i) = the i-th cell of that column; a Go panic exactly outside 0 <= i < Len *)
+Theorem C09_view_item f t name ty cells i :
+  abs f = Ok t -> tcolumn t name = Some (ty, cells) ->
+  frame_view_item f ty name i = if (i <? 0)%Z then Panic else of_option (nth_error cells (Z.to_nat i)).
+Proof. exact (view_item_spec f t name ty cells i). Qed.
+Print Assumptions C09_view_item.
+
+(* reading ItemAt(0) .. ItemAt(Len-1) gives what Slice gives *)
+Theorem C09_view_items_slice v r : view_slice v = Ok r -> view_items v = Ok r.
+Proof. exact (view_items_slice v r). Qed.
+Print Assumptions C09_view_items_slice.
+
+(* a view of another type or of an unknown name is an error *)
+Theorem C09_view_wrong_type f t name ty cells ty' :
+  abs f = Ok t -> tcolumn t name = Some (ty, cells) -> ty' <> ty -> get_view f ty' name = Fail.
+Proof. exact (view_wrong_type f t name ty cells ty'). Qed.
+Print Assumptions C09_view_wrong_type.
+Theorem C09_view_unknown f t name ty : abs f = Ok t -> tcolumn t name = None -> get_view f ty name = Fail.
+Proof. exact (view_unknown f t name ty). Qed.
+Print Assumptions C09_view_unknown.
+
+(* ToCSV (without the Columns option, writer that never fails): the records handed to encoding/csv are the
+   header (if requested) followed by one record per row of the table, in row order, whose fields are the
+   StringAt renderings [csv_cell] of the cells, in column order - for every float formatter.
+   The frame-level ToCSV model of Model/CsvWrite.v takes the frame as read through the typed views
+   (Model/Observe.v observe_frame = what engine csv reads from the implementation); so this is also the
+   agreement views <-> ToCSV.
+   SURPRISING PREMISE: NoDup (col_names f).  ToCSV resolves every column BY NAME; on a frame with a repeated
+   column name it writes the last column of that name in every position of that name (see the example below
+   and the report: Select("a","a") followed by Apply into "a" reaches such a frame). *)
+Theorem C09_to_csv_records ff f t hdr :
+  abs f = Ok t -> NoDup (col_names f) -> (cols f = [] -> ix f = []) ->
+  frame_to_csv_records ff f (mkToConf hdr None)
+  = Ok (if hdr then tnames t :: map (map (csv_cell ff)) (trows t) else map (map (csv_cell ff)) (trows t)).
+Proof. exact (to_csv_records_spec ff f t hdr). Qed.
+Print Assumptions C09_to_csv_records.
+
+Theorem C09_to_csv ff f t hdr :
+  abs f = Ok t -> NoDup (col_names f) -> (cols f = [] -> ix f = []) ->
+  frame_to_csv ff f (mkToConf hdr None)
+  = Ok (concat (map (writer_write 44 false)
+                    (if hdr then tnames t :: map (map (csv_cell ff)) (trows t)
+                     else map (map (csv_cell ff)) (trows t)))).
+Proof. exact (to_csv_spec ff f t hdr). Qed.
+Print Assumptions C09_to_csv.
+
+(* the third premise holds for every well-formed frame *)
+Theorem C09_wf_no_rows_without_columns f : wf_frame f = true -> cols f = [] -> ix f = [].
+Proof. exact (wf_no_cols f). Qed.
+Print Assumptions C09_wf_no_rows_without_columns.
+
+(* the premise NoDup cannot be dropped: on this frame (reachable in the implementation, see the report)
+   ToCSV writes 10,10 / 20,20 while the table, ToJSON and Equals see 1,10 / 2,20 *)
+Example C09_to_csv_duplicate_names :
+  let f := mkFrame [([97%N], ICol [1; 2]%Z); ([97%N], ICol [10; 20]%Z)] [0; 1] false in
+  frame_to_csv_records (fun _ => []) f (mkToConf false None) = Ok [[[49; 48]; [49; 48]]; [[50; 48]; [50; 48]]]%N
+  /\ option_map trows (match abs f with Ok t => Some t | _ => None end)
+     = Some [[CInt 1; CInt 10]; [CInt 2; CInt 20]]%Z.
+Proof. vm_compute. auto. Qed.
+
+(* ToJSON (writer that never fails) never fails and performs the Write calls "[", then one object per row of
+   the table in row order (a leading comma from the second on), then "]"; every object lists the columns in
+   column order with key = QuotedBytes(name) and value = the AppendByteStringAt rendering [json_cell] of the
+   cell - for every float formatter.  Stated at the interface of Model/Json.v (to_json takes the rendered
+   cells); frame_to_json (Model/Observe.v) renders them from the physical frame as qframe.go does. *)
+Theorem C09_to_json af f t :
+  abs f = Ok t ->
+  exists qnames cells,
+    omap quoted_bytes (tnames t) = Ok qnames
+    /\ Forall2 (Forall2 (fun c b => json_cell af c = Ok b)) (trows t) cells
+    /\ frame_to_json af f = Ok (doc_text qnames cells)
+    /\ frame_to_json_writes af f
+       = Ok ([[c_lbracket]]
+             ++ map (fun ir => (if (0 <? fst ir)%nat then [c_comma] else []) ++ object_text qnames (snd ir))
+                    (combine (seq 0 (length cells)) cells)
+             ++ [[c_rbracket]]).
+Proof. exact (to_json_spec af f t). Qed.
+Print Assumptions C09_to_json.
+
+(* ================================================================== wave 2: rebuilt with New is Equal *)
+
+(* [rebuild f] (Model/Observe.v) = New(data, ColumnOrder(names of f), Enums(value lists of f's enum columns))
+   where data maps every column name to the Slice() of the typed view of that name ([]int, []float64, []bool,
+   []*string).  For every well-formed frame with unique legal column names: New accepts, the new frame has no
+   Err, the identity index, EXACTLY the logical table of f - and therefore Equals holds in both directions.
+   (Enum ranks and value tables of the rebuilt frame may differ from f's: only the strings count.) *)
+Theorem C09_rebuild f t :
+  wf_frame f = true -> abs f = Ok t -> NoDup (col_names f) -> forallb check_name (col_names f) = true ->
+  exists g, rebuild f = Ok g /\ ferr g = false /\ ix g = seq 0 (length (trows t)) /\ abs g = Ok t
+            /\ equals g f = Ok true /\ equals f g = Ok true.
+Proof. exact (rebuild_spec f t). Qed.
+Print Assumptions C09_rebuild.
+
+Example C09_rebuild_example :
+  wf_frame ex_f = true /\ forallb check_name (col_names ex_f) = true
+  /\ (do g <- rebuild ex_f; equals g ex_f) = Ok true
+  /\ (do g <- rebuild ex_f; Ok (cols g))
+     = Ok [([65%N], FCol [0x3FF0000000000000; 0x7FF8000000000001; 0]%N); ([66%N], SCol [Some [97%N]; None; Some []]);
+           ([67%N], ECol [0; 1; 255]%N [[120%N]; [121%N]] true)].
+Proof. vm_compute. auto. Qed.
+
+(* ================================================================== wave 2: operations are functions of the table
+   Two frames with the same logical table and the same Err state - e.g. a frame and its rebuilt twin of
+   C09_rebuild, whatever their physical layouts and indexes - give results with the same table and Err state.
+   Proved by exhibiting the table-level function (Model/TableSpec.v: tslice, tselect - the oracles the frameops
+   engine runs). *)
+
+Example C09_congr_premises :
+  exists t, abs ex_f = Ok t /\ (do g <- rebuild ex_f; abs g) = Ok t /\ ferr ex_f = false
+            /\ cols ex_f <> (match rebuild ex_f with Ok g => cols g | _ => [] end).
+Proof. eexists. split; [vm_compute; reflexivity|]. split; [vm_compute; reflexivity|]. split; [reflexivity|]. vm_compute. discriminate. Qed.
+
+(* Slice(a, b) on a frame without Err: Err iff a < 0 or b < a or b > number of rows, the table is untouched in
+   that case, and otherwise exactly rows a .. b-1 *)
+Theorem C09_slice_table f a b t :
+  abs f = Ok t -> ferr f = false ->
+  ferr (slice f a b) = slice_bad t a b
+  /\ abs (slice f a b) = Ok (if slice_bad t a b then t else tslice t (Z.to_nat a) (Z.to_nat b)).
+Proof. exact (slice_table f a b t). Qed.
+Print Assumptions C09_slice_table.
+
+Theorem C09_slice_congr f g a b t :
+  abs f = Ok t -> abs g = Ok t -> ferr f = ferr g ->
+  ferr (slice f a b) = ferr (slice g a b) /\ abs (slice f a b) = abs (slice g a b).
+Proof. exact (slice_congr f g a b t). Qed.
+Print Assumptions C09_slice_congr.
+
+(* Slice also respects Equals itself (tables equal only up to the cell relation) *)
+Theorem C09_slice_equals f g a b tf tg :
+  abs f = Ok tf -> abs g = Ok tg -> ferr f = false -> ferr g = false ->
+  equals f g = Ok true ->
+  ferr (slice f a b) = ferr (slice g a b) /\ equals (slice f a b) (slice g a b) = Ok true.
+Proof. exact (slice_equals f g a b tf tg). Qed.
+Print Assumptions C09_slice_equals.
+Example C09_slice_equals_example :
+  equals ex_f ex_g = Ok true /\ equals (slice ex_f 1 3) (slice ex_g 1 3) = Ok true
+  /\ ix (slice ex_f 1 3) <> ix (slice ex_g 1 3).
+Proof. vm_compute. repeat split. discriminate. Qed.
+
+(* Select(names) on a frame without Err = tselect of the table (None: an unknown name, Err is set and the
+   table untouched) *)
+Theorem C09_select_table f names t :
+  abs f = Ok t -> ferr f = false ->
+  match tselect t names with
+  | None => ferr (select f names) = true /\ abs (select f names) = Ok t
+  | Some t' => ferr (select f names) = false /\ abs (select f names) = Ok t'
+  end.
+Proof. exact (select_table f names t). Qed.
+Print Assumptions C09_select_table.
+
+Theorem C09_select_congr f g names t :
+  abs f = Ok t -> abs g = Ok t -> ferr f = ferr g ->
+  ferr (select f names) = ferr (select g names) /\ abs (select f names) = abs (select g names).
+Proof. exact (select_congr f g names t). Qed.
+Print Assumptions C09_select_congr.
+
+Theorem C09_drop_congr f g names t :
+  abs f = Ok t -> abs g = Ok t -> ferr f = ferr g ->
+  ferr (drop f names) = ferr (drop g names) /\ abs (drop f names) = abs (drop g names).
+Proof. exact (drop_congr f g names t). Qed.
+Print Assumptions C09_drop_congr.
+
+(* setColumn with a legal name replaces the column in its position or appends it last (tset_col) *)
+Theorem C09_set_column_table f name c t cells :
+  abs f = Ok t -> omap (cell_at c) (ix f) = Ok cells -> check_name name = true ->
+  ferr (set_column f name c) = ferr f
+  /\ abs (set_column f name c) = Ok (tset_col t name (col_type c) cells).
+Proof. exact (set_column_table f name c t cells). Qed.
+Print Assumptions C09_set_column_table.
+
+(* Copy(dst, src) = tcopy of the table (Proofs/ObserveProofs.v: unknown source or illegal destination name =
+   Err and the table untouched; dst = src = unchanged; else tset_col with the source column) *)
+Theorem C09_copy_table f dst src t :
+  abs f = Ok t -> ferr f = false ->
+  match tcopy t dst src with
+  | None => ferr (copy f dst src) = true /\ abs (copy f dst src) = Ok t
+  | Some t' => ferr (copy f dst src) = false /\ abs (copy f dst src) = Ok t'
+  end.
+Proof. exact (copy_table f dst src t). Qed.
+Print Assumptions C09_copy_table.
+
+Theorem C09_copy_congr f g dst src t :
+  abs f = Ok t -> abs g = Ok t -> ferr f = ferr g ->
+  ferr (copy f dst src) = ferr (copy g dst src) /\ abs (copy f dst src) = abs (copy g dst src).
+Proof. exact (copy_congr f g dst src t). Qed.
+Print Assumptions C09_copy_congr.
+
+(* Apply with one func(T) U instruction (the function as a finite table, as the frameops engine records it):
+   the result is tset_col of the function's values on the cells of the source column, in row order.
+   Premises a reader may find surprising: NoDup (ix f) and wf_frame f - the implementation writes results by
+   PHYSICAL position, so a repeated index entry would be written twice (every index the implementation builds
+   is duplicate-free: C01/C03). *)
+Theorem C09_apply1_table ut f tin tout tbl dst src t ty cells vals :
+  abs f = Ok t -> ferr f = false -> wf_frame f = true -> NoDup (ix f) ->
+  tcolumn t src = Some (ty, cells) -> ctype_eqb (ftype_of ty) tin = true -> tout <> TEnum ->
+  check_name dst = true ->
+  omap (tbl1 tbl) cells = Ok vals -> Forall (fun y => cell_type_ok tout y = true) vals ->
+  exists g, apply1 ut f (F1 tin tout tbl) dst src = Ok g /\ ferr g = false
+            /\ abs g = Ok (tset_col t dst tout vals).
+Proof. exact (apply1_table ut f tin tout tbl dst src t ty cells vals). Qed.
+Print Assumptions C09_apply1_table.
+
+Theorem C09_apply1_congr ut f g tin tout tbl dst src t ty cells vals :
+  abs f = Ok t -> abs g = Ok t -> ferr f = false -> ferr g = false ->
+  wf_frame f = true -> wf_frame g = true -> NoDup (ix f) -> NoDup (ix g) ->
+  tcolumn t src = Some (ty, cells) -> ctype_eqb (ftype_of ty) tin = true -> tout <> TEnum ->
+  check_name dst = true ->
+  omap (tbl1 tbl) cells = Ok vals -> Forall (fun y => cell_type_ok tout y = true) vals ->
+  exists f' g', apply1 ut f (F1 tin tout tbl) dst src = Ok f' /\ apply1 ut g (F1 tin tout tbl) dst src = Ok g'
+                /\ ferr f' = ferr g' /\ abs f' = abs g'.
+Proof. exact (apply1_congr ut f g tin tout tbl dst src t ty cells vals). Qed.
+Print Assumptions C09_apply1_congr.
+
+Example C09_apply1_example :
+  let f := mkFrame [([65%N], ICol [10; 20; 30; 40]%Z)] [2; 0; 3] false in
+  let tbl := [(CInt 30, CStr (Some [51%N])); (CInt 10, CStr None); (CInt 40, CStr (Some [52%N]))]%Z in
+  wf_frame f = true /\ NoDup (ix f)
+  /\ (do t <- abs f; Ok (tcolumn t [65%N])) = Ok (Some (TInt, [CInt 30; CInt 10; CInt 40]%Z))
+  /\ omap (tbl1 tbl) [CInt 30; CInt 10; CInt 40]%Z = Ok [CStr (Some [51%N]); CStr None; CStr (Some [52%N])]
+  /\ (do g <- apply1 [] f (F1 TInt TString tbl) [66%N] [65%N]; do t <- abs g; Ok (trows t))
+     = Ok [[CInt 30; CStr (Some [51%N])]; [CInt 10; CStr None]; [CInt 40; CStr (Some [52%N])]]%Z.
+Proof.
+  split; [reflexivity|]. split; [repeat constructor; simpl; intuition discriminate|]. vm_compute. auto.
+Qed.
+
+(* ================================================================== what is still a Definition
+   The full congruence statement of the property: EVERY operation maps frames with the same table to frames
+   with the same table.  Proved above for Slice, Select, Drop, Copy, setColumn and Apply with a func(T) U
+   instruction; NOT proved here for Filter, the other Apply instruction kinds, FilteredApply, WithRowNums, Eval,
+   Sort, Distinct, GroupBy/Aggregate (their table-level characterisations belong to C02/C03/C04/C05/C06/C07).
+   The Definition below is the target shape for the operations of Model/Ops.v and Model/Filter.v only; it is NOT
+   claimed to hold as written: the per-case oracle tables (upper-casing [ut], matchers [mt]) are consulted on
+   physical data (e.g. on every entry of an enum value list), so totality of those tables on the strings of
+   both frames would have to be added as a premise. *)
+Definition C09_congruence_full_statement : Prop :=
+  forall (op : frame -> outcome frame),
+    (exists mt c, op = fun f => frame_filter mt f c)
+    \/ (exists mt ut c is, op = fun f => filtered_apply mt ut f c is)
+    \/ (exists ut is, op = fun f => apply ut f is)
+    \/ (exists name, op = fun f => with_row_nums f name) ->
+  forall f g t, wf_frame f = true -> wf_frame g = true -> NoDup (ix f) -> NoDup (ix g) ->
+    abs f = Ok t -> abs g = Ok t -> ferr f = ferr g ->
+    match op f, op g with
+    | Ok f', Ok g' => ferr f' = ferr g' /\ abs f' = abs g'
+    | Fail, Fail | Panic, Panic => True
+    | _, _ => False
+    end.
